@@ -51,14 +51,15 @@ def pools(quick):
     if quick:
         values = [-8, 3, 12]
         # (the last title needs escaping in JSON: '&', '<', a backslash)
-        titles = ["NOTICE", "notice", "warn", "WARN", "h\u00e9llo", "R&D<a\\b>"]
+        # (... and the empty title, which is free like any other)
+        titles = ["NOTICE", "notice", "warn", "WARN", "h\u00e9llo", "R&D<a\\b>", ""]
         opts = [opt(),
                 opt(tags("", "S", "SW", "", "", "SWEEL"), treat=4, err=[[]], clr=1),
                 opt(treat=2, err=[[True], [False]]),
                 opt(treat=0, err=[[True]], clr=2)]
     else:
         values = [-8, 3, 12, 17]
-        titles = ["NOTICE", "notice", "Hint", "warn", "WARN", "h\u00e9llo", "\u00d1u", "x", "R&D<a\\b>", "q\"\u2028\t"]
+        titles = ["NOTICE", "notice", "Hint", "warn", "WARN", "h\u00e9llo", "\u00d1u", "x", "R&D<a\\b>", "q\"\u2028\t", ""]
         opts = [opt(),
                 opt(tags("", "S", "SW", "", "", "SWEEL"), treat=4, err=[[]], clr=1),
                 opt(treat=2, err=[[True], [False]]),
